@@ -138,6 +138,12 @@ def handle_path_command(args: argparse.Namespace) -> None:  # noqa: PLR0912, D10
             raise
         sys.stderr.write(f"target document json decode error: {err}\n")
         sys.exit(1)
+    except ValueError as err:
+        # For example, an integer with more digits than Python will convert.
+        if args.debug:
+            raise
+        sys.stderr.write(f"target document value error: {err}\n")
+        sys.exit(1)
     except UnicodeDecodeError as err:
         if args.debug:
             raise
